@@ -11,8 +11,13 @@ CLAIM = {
   "text": "Proved for every destination kind, buffer size, chain, failure index and number of bytes taken by the failing operation: an Encode call / stream sequence that reports "
           "success consumed no failing operation, so once the failing operation is reached some call returns an error (also when the failure lands inside bufio and when it hits "
           "the header rewrite after the CRC). Proved on the integrity rules: no prefix of a destination content that still carries the provisional header (data size 0) is "
-          "accepted, and (C04_trunc) no proper prefix of a complete sequence is. Partial: that every crash/failure point leaves one of these two shapes (or a completed boundary) "
-          "is decided per run, not by theorem: for every operation index k of every generated configuration and accepted counts {0,1,5,len-1} the real encoder runs against the "
+          "accepted, and (C04_trunc) no proper prefix of a complete sequence is. For a destination that is only appended to (a plain io.Writer) the crash clause is a theorem in full: under ANY fault plan, write-buffer size, "
+          "chain and earlier content the destination holds the earlier content followed by a prefix of the concatenated sequences (C11_plain_destination_holds_a_prefix: "
+          "induction over bufio's write loop with the sticky error, Flush, the Write calls of a sequence and the chain), and the integrity rules accept a prefix of a chain of "
+          "encoder outputs only when it is exactly the first j >= 1 completed sequences (C11_plain_crash_accepted_only_at_boundary, "
+          "C11_prefix_of_chain_accepted_only_at_boundary). Partial for destinations that are rewritten in place (Seek / WriteAt): that every crash/failure point leaves the "
+          "provisional-header shape, a proper prefix or a completed boundary is decided per run, not by theorem (a half-rewritten header is a byte string whose rejection "
+          "rests on the header CRC, not on structure): for every operation index k of every generated configuration and accepted counts {0,1,5,len-1} the real encoder runs against the "
           "failing destination under recover(): no panic, an error is returned, and the real CheckIntegrity accepts the destination content only when it equals the content at a "
           "boundary between completed sequences.",
   "note": NOTE_COMMON + " The model is total, so 'no panic' is a statement about the Go code only and is checked by execution. A crash is represented by a failing operation "
